@@ -25,6 +25,7 @@ type replayCase struct {
 	Obs     []string `json:"obs,omitempty"`
 	Race    bool     `json:"race,omitempty"`
 	Sched   bool     `json:"sched,omitempty"` // schedule-dependent: native confirmation by repeated runs
+	MaxAlloc int64   `json:"max_alloc,omitempty"` // allocation bound of the harness (cases that predict an oversized allocation)
 }
 
 type replayResult struct {
@@ -153,6 +154,11 @@ func replay(pkgPath string, harnessNames []string, cases []replayCase, race bool
 			c.Dir = repoDir
 		}
 		c.Env = append(os.Environ(), "VERIF_REPLAY_FILE="+caseFile, fmt.Sprintf("VERIF_CASE=%d", k), "VERIF_CASE_TIMEOUT=15s", "GORACE=halt_on_error=0")
+		if cases[k].Expect == "alloc" && cases[k].MaxAlloc > 0 {
+			// an oversized allocation usually succeeds natively: the replay measures
+			// the bytes allocated by the harness and reports "alloc" above the bound
+			c.Env = append(c.Env, fmt.Sprintf("VERIF_MAX_ALLOC=%d", cases[k].MaxAlloc))
+		}
 		if attempts > 1 {
 			// repeated runs under varying parallelism stand in for schedule control
 			c.Env = append(c.Env, "VERIF_REPEAT=400", fmt.Sprintf("GOMAXPROCS=%d", []int{4, 2, 16, 8, 3, 1}[att]))
@@ -243,7 +249,7 @@ func expectMatches(expect, got string) bool {
 	case "alloc":
 		// oversized allocation: natively either succeeds in allocating a lot,
 		// or dies with out of memory / len out of range
-		return got == "fatal" || got == "panic" || got == "crash" || got == "hang"
+		return got == "fatal" || got == "panic" || got == "crash" || got == "hang" || got == "alloc"
 	case "deadlock":
 		return got == "deadlock" || got == "hang" || got == "fatal"
 	case "hang":
@@ -297,7 +303,7 @@ func report(cc *checkCfg, tier string, seed int, res *results, ran []*harnessCfg
 		totalDecisions += hr.Decisions
 		pp := perPkg[h.Pkg]
 		for _, v := range sortedViolations(hr) {
-			pp.cases = append(pp.cases, replayCase{Harness: h.Name, Vector: v.Vector, Expect: v.Expect, Key: v.Key, Race: v.Kind == "race", Sched: h.Delays > 0 || h.Preempt > 0})
+			pp.cases = append(pp.cases, replayCase{Harness: h.Name, Vector: v.Vector, Expect: v.Expect, Key: v.Key, Race: v.Kind == "race", Sched: h.Delays > 0 || h.Preempt > 0, MaxAlloc: h.MaxAlloc})
 			pp.names[h.Name] = true
 			if v.Kind == "race" {
 				pp.raceAny = true
